@@ -128,7 +128,10 @@ def render(spec):
         w.append(MEMBERS)
     ch = spec["child"]
     if ch:
-        w.append(decos(cinv) + "class Child(Root):\n")
+        w.append(decos(cinv) + ("@dataclasses.dataclass(slots=True)\n" if ch.get("dc_slots") else "") + "class Child(Root):\n")
+        if ch.get("dc_slots"):
+            # dataclass(slots=True) creates the class a second time from the namespace of the first one
+            w.append("    z: int = 0\n")
         if style == "slots":
             w.append("    __slots__ = ('z',)\n")
         any_body = False
@@ -228,6 +231,9 @@ def specs(tier):
                         if ctor in ("none", "first") and not overrides and style != "dataclass":
                             out.append({"base": "DBC", "style": style, "invs": invs,
                                         "child": {"invs": cinvs, "ctor": ctor, "overrides": overrides, "adds": adds, "extends_prop": True}})
+                        if ctor == "none" and style == "no_init":
+                            out.append({"base": "DBC", "style": style, "invs": invs,
+                                        "child": {"invs": cinvs, "ctor": ctor, "overrides": overrides, "adds": adds, "dc_slots": True}})
                         if ctor in ("none", "first") and not overrides and style in ("plain", "no_init"):
                             out.append({"base": "DBC", "style": style, "invs": invs,
                                         "child": {"invs": cinvs, "ctor": ctor, "overrides": overrides, "adds": adds, "own_setattr": True}})
@@ -238,7 +244,7 @@ def feats(spec, op=None, seq=None):
     ch = spec["child"]
     return {"base": spec["base"], "style": spec["style"], "invs": "".join(spec["invs"]),
             "child": None if not ch else "{}|{}|{}{}{}".format("".join(ch["invs"]), ch["ctor"], "o" if ch["overrides"] else "-", "a" if ch["adds"] else "-",
-                                                              ("x" if ch.get("extends_prop") else "") + ("s" if ch.get("own_setattr") else "")),
+                                                              ("x" if ch.get("extends_prop") else "") + ("s" if ch.get("own_setattr") else "") + ("d" if ch.get("dc_slots") else "")),
             "child_invs": None if not ch else "".join(ch["invs"]), "ctor": None if not ch else ch["ctor"],
             "op": op, "first_op": seq[0] if seq else None,
             "has_setattr_inv": any(c in "SA" for c in spec["invs"] + (ch["invs"] if ch else [])),
